@@ -255,13 +255,26 @@ def run_prim(ctx, c):
     d = x.out(32)
     if x.call("beltPBKDF2", d, x.buf(pwd), len(pwd), it, x.buf(salt), len(salt)): raise Fail("beltPBKDF2 failed")
     chk("beltPBKDF2", d.read(), R.pbkdf2(pwd, it, salt))
-    ctx.nontrivial("prim", kl, c["kc"], c["bc"], c["pl"] > 32, it)
+    # the length counters of hash / HMAC (128 bit, u32 words) and of DWP / CHE (64 bit, machine words): block <- block + 8 * count.
+    # Messages long enough to carry between words cannot be processed in a test, so the helpers are driven directly (belt_lcl.h).
+    cv = c.get("cnt", 0)
+    for bv in (c.get("blk", 0), (1 << 128) - 1 - (c.get("blk", 0) & 0xFFFFFFFFFF)):
+        B = x.buf((bv & ((1 << 128) - 1)).to_bytes(16, "little"))
+        x.call("beltBlockAddBitSizeU32", B, cv, ret="v")
+        chk("beltBlockAddBitSizeU32(block=%032x, count=%d)" % (bv & ((1 << 128) - 1), cv), B.read(), ((bv + 8 * cv) & ((1 << 128) - 1)).to_bytes(16, "little"))
+        hv = bv & ((1 << 64) - 1)
+        B = x.buf(hv.to_bytes(8, "little"))
+        x.call("beltHalfBlockAddBitSizeW", B, cv, ret="v")
+        chk("beltHalfBlockAddBitSizeW(block=%016x, count=%d)" % (hv, cv), B.read(), ((hv + 8 * cv) & ((1 << 64) - 1)).to_bytes(8, "little"))
+    ctx.nontrivial("prim", kl, c["kc"], c["bc"], c["pl"] > 32, it, (cv.bit_length() + 3) // 4, (c.get("blk", 0).bit_length() + 7) // 8)
     ctx.sample(c)
 
 
 S_PRIM = st.fixed_dictionaries({
     "kl": st.sampled_from([16, 24, 32]), "kc": st.sampled_from(["rnd", "rnd", "zero", "ff"]), "bc": st.sampled_from(["rnd", "rnd", "zero", "ff"]),
-    "seed": st.binary(min_size=1, max_size=4).map(bytes.hex), "pl": st.sampled_from([0, 1, 8, 32, 33, 70]), "sl": st.sampled_from([0, 8, 16, 40]), "iter": st.integers(1, 12)})
+    "seed": st.binary(min_size=1, max_size=4).map(bytes.hex), "pl": st.sampled_from([0, 1, 8, 32, 33, 70]), "sl": st.sampled_from([0, 8, 16, 40]), "iter": st.integers(1, 12),
+    "cnt": st.one_of(st.integers(0, 4096), st.integers(0, 64).flatmap(lambda k: st.integers(max(0, (1 << k) - 3), min((1 << 64) - 1, (1 << k) + 3))), st.integers(0, (1 << 64) - 1)),
+    "blk": st.one_of(st.just(0), st.integers(0, 128).flatmap(lambda k: st.integers(max(0, (1 << k) - 40), min((1 << 128) - 1, (1 << k) + 40))), st.integers(0, (1 << 128) - 1))})
 
 
 MODS = [2, 3, 10, 16, 255, 256, 257, 1000, 49667, 65535, 65536]
